@@ -305,6 +305,24 @@ class Table:
                 rf = RF(self, p_atom(self.intern('cmp', at.args, (self.NEG_CMP[at.extra[0]],), None)))
                 flipped = not flipped
                 continue
+            # emptiness tests: len(x) == 0 is `not x`, 0 < len(x) is `x` (for the sized containers they are used on)
+            if at.head == 'cmp' and isinstance(at.extra, tuple) and len(at.extra) == 1 and len(at.args) == 2 and \
+                    at.extra[0] in ('Eq', 'Lt'):
+                ln = None
+                for k in (0, 1):
+                    o, z = at.args[k], at.args[1 - k]
+                    oa = o.single_atom() if isinstance(o, RF) else None
+                    if oa is not None and self.atoms[oa].head == 'call' and self.atoms[oa].extra and \
+                            self.atoms[oa].extra[0] == 'fn:len' and isinstance(z, RF) and z.const() == 0 and \
+                            len(self.atoms[oa].args) == 1 and isinstance(self.atoms[oa].args[0], RF):
+                        # for Lt the canonical order is (smaller, larger): 0 < len(x) only
+                        if at.extra[0] == 'Eq' or k == 1:
+                            ln = self.atoms[oa].args[0]
+                if ln is not None:
+                    rf = ln
+                    if at.extra[0] == 'Eq':
+                        flipped = not flipped
+                    continue
             return rf, flipped
 
     def const(self, c):
